@@ -1,6 +1,455 @@
-/- Line-protocol driver for engine `sql` — not built yet (stub). -/
+/-
+  Line-protocol driver for engine `sql` (C05; reused by C06).
+
+  case   := "sql" DB " ; " STMT (" ; " STMT)*
+  DB     := TABLE ("/" TABLE)*            one word, tables are t0, t1, … in this order
+  TABLE  := TYS "=" [ROW ("|" ROW)*]      TYS: one letter per column  I=INT B=BIGINT O=BOOL S=TEXT ; columns are c0, c1, …
+  ROW    := VAL ("," VAL)*
+  VAL    := "n" | "i"<decimal> | "b0" | "b1" | "t"<hex of the bytes> | "t-" (empty text)
+
+  STMT (space separated words, prefix notation, every operator has a fixed arity):
+    sel (all|distinct) F W g<k> E×k a<k> AGG×k P o<k> ORD×k lim(<n>|-) off(<n>|-)
+        F   := t<k> | j (inner|left|right|full|cross) F F (- | on E)
+        W   := - | w E
+        AGG := cnt* | cnt E | sum E | avg E | min E | max E
+        P   := star | p<k> E×k                  (ignored when a<k> has k > 0: output = group keys ++ aggregates)
+        ORD := a<pos> | d<pos>                  ascending / descending on output column <pos>
+    ins t<k> r<n> E×(n·columns)
+    upd t<k> s<m> (c<col> E)×m W
+    del t<k> W
+  E := n | i<dec> | b0 | b1 | t<hex> | c<k>                      literal / column k of the (joined) input row
+     | not E | neg E | pos E | and E E | or E E
+     | eq|ne|lt|le|gt|ge E E | add|sub|mul|div|mod E E
+     | like E E | nlike E E | isnull E | notnull E | btw E E E | nbtw E E E | in<k> E E×k | nin<k> E E×k
+
+  answer := OUT (" ; " OUT)*     one per statement
+  OUT    := "Rset:" ROWS      no ORDER BY: rows in canonical (sorted) order
+          | "Rord:" ROWS      ORDER BY without LIMIT/OFFSET: the answer was sorted under the spec comparator; rows canonical
+          | "Rlist:" ROWS     LIMIT/OFFSET present: rows in answer order
+          | "A"<n>            rows affected
+          | "E"<class>        parse|bind|type|constraint|overflow|divzero|panic|eval|other
+          | "-"               not compared: a DML statement before this one failed (what it leaves behind is C03)
+  ROWS as in DB; a double that is not integral is printed `f<bits>`.
+-/
+import AxVerif.Model.Bytes
+import AxVerif.Model.Sql
+import AxVerif.Model.Parser
+import AxVerif.Generated.Parse
+namespace AxVerif.Sql
+open AxVerif
+
+/-! ### what the shipped parser made of the printed text (flags `notBindsLooser`, `unaryBindsLooser`)
+
+The harness prints every expression with minimal parentheses under the documented precedence.  With the shipped
+binding powers of the prefix operators the real parser read some of these texts as a different tree.  Under these
+flags the model does the same: expression → tokens (documented table) → Pratt parser with the shipped powers →
+expression. -/
+
+open AxVerif.Parser in
+mutual
+def toP : Expr → PExpr
+  | .lit .null => .null
+  | .lit (.int i) => .num i
+  | .lit (.bool b) => .bool b
+  | .lit (.text t) => .str t
+  | .lit (.rat n _) => .num n
+  | .col i => .ident (99 :: (toString i).toList.map Char.toNat)
+  | .not e => .un .not (toP e)
+  | .neg e => .un .neg (toP e)
+  | .pos e => .un .pos (toP e)
+  | .and a b => .bin .and (toP a) (toP b)
+  | .or a b => .bin .or (toP a) (toP b)
+  | .cmp op a b => .bin (match op with | .eq => .eq | .ne => .neq | .lt => .lt | .le => .le | .gt => .gt | .ge => .ge) (toP a) (toP b)
+  | .arith op a b => .bin (match op with | .add => .plus | .sub => .minus | .mul => .mul | .div => .div | .mod => .mod) (toP a) (toP b)
+  | .like neg a b => .bin (if neg then .notlike else .like) (toP a) (toP b)
+  | .isNull neg e => .bin (if neg then .isnot else .is) (toP e) .null
+  | .between neg e lo hi => .between neg (toP e) (toP lo) (toP hi)
+  | .inList neg e xs => .inList neg (toP e) (toPList xs)
+def toPList : List Expr → List PExpr
+  | [] => []
+  | e :: es => toP e :: toPList es
+end
+
+open AxVerif.Parser in
+mutual
+def fromP : PExpr → Option Expr
+  | .null => some (.lit .null)
+  | .num i => some (.lit (.int i))
+  | .bool b => some (.lit (.bool b))
+  | .str t => some (.lit (.text t))
+  | .ident (99 :: ds) => (String.ofList (ds.map Char.ofNat)).toNat?.map .col
+  | .ident _ => none
+  | .qident _ _ => none
+  | .un .not e => (fromP e).map .not
+  | .un .neg e => (fromP e).map .neg
+  | .un .pos e => (fromP e).map .pos
+  | .bin op a b =>
+    match fromP a, fromP b with
+    | some x, some y =>
+      match op with
+      | .and => some (.and x y) | .or => some (.or x y)
+      | .eq => some (.cmp .eq x y) | .neq => some (.cmp .ne x y) | .lt => some (.cmp .lt x y)
+      | .le => some (.cmp .le x y) | .gt => some (.cmp .gt x y) | .ge => some (.cmp .ge x y)
+      | .plus => some (.arith .add x y) | .minus => some (.arith .sub x y) | .mul => some (.arith .mul x y)
+      | .div => some (.arith .div x y) | .mod => some (.arith .mod x y)
+      | .like => some (.like false x y) | .notlike => some (.like true x y)
+      | .is => (match y with | .lit .null => some (.isNull false x) | _ => none)
+      | .isnot => (match y with | .lit .null => some (.isNull true x) | _ => none)
+      | .concat => none
+    | _, _ => none
+  | .between neg e lo hi =>
+    match fromP e, fromP lo, fromP hi with
+    | some a, some b, some c => some (.between neg a b c)
+    | _, _, _ => none
+  | .inList neg e xs =>
+    match fromP e, fromPList xs with
+    | some a, some ys => some (.inList neg a ys)
+    | _, _ => none
+def fromPList : List PExpr → Option (List Expr)
+  | [] => some []
+  | e :: es => match fromP e, fromPList es with
+    | some x, some xs => some (x :: xs)
+    | _, _ => none
+end
+
+/-- the tree the parser with table `T` builds from the minimal text of `e` (`e` itself if that fails) -/
+def reparse (T : Parser.Table) (e : Expr) : Expr :=
+  match Parser.parseExpr T (Parser.body Parser.docTable (toP e)) with
+  | some p => (fromP p).getD e
+  | none => e
+
+def reparseFrom (T : Parser.Table) : From → From
+  | .table t => .table t
+  | .join k l r on => .join k (reparseFrom T l) (reparseFrom T r) (on.map (reparse T))
+
+def reparseStmt (T : Parser.Table) : Stmt → Stmt
+  | .select q => .select { q with
+      from_ := reparseFrom T q.from_, where_ := q.where_.map (reparse T), groupBy := q.groupBy.map (reparse T),
+      aggs := q.aggs.map (fun a => { a with arg := reparse T a.arg }), items := q.items.map (·.map (reparse T)) }
+  | .insert t rows => .insert t (rows.map (·.map (reparse T)))
+  | .update t sets w => .update t (sets.map (fun s => (s.1, reparse T s.2))) (w.map (reparse T))
+  | .delete t w => .delete t (w.map (reparse T))
+
+def shippedParserTable (flags : List String) : Option Parser.Table :=
+  if flags.contains "notBindsLooser" || flags.contains "unaryBindsLooser" then
+    let t := Generated.parseTable
+    let t := if flags.contains "notBindsLooser" then { t with prefixNot := Parser.shippedTable.prefixNot } else t
+    some (if flags.contains "unaryBindsLooser" then
+      { t with prefixMinus := Parser.shippedTable.prefixMinus, prefixPlus := Parser.shippedTable.prefixPlus } else t)
+  else none
+
+/-! ### reading -/
+
+def valOfWord (w : String) : Option Value :=
+  match w.toList with
+  | ['n'] => some .null
+  | ['b', '0'] => some (.bool false)
+  | ['b', '1'] => some (.bool true)
+  | 'i' :: rest => (String.ofList rest).toInt?.map .int
+  | 't' :: rest => (bytesOfHex (String.ofList rest)).map (fun bs => .text (bs.map (·.toNat)))
+  | _ => none
+
+def allSome {α} : List (Option α) → Option (List α)
+  | [] => some []
+  | none :: _ => none
+  | some a :: r => (allSome r).map (a :: ·)
+
+def tyOfChar : Char → Option Ty
+  | 'I' => some .int | 'B' => some .bigint | 'O' => some .bool | 'S' => some .text
+  | _ => none
+
+def parseTable (w : String) : Option TableDef :=
+  match w.splitOn "=" with
+  | [tys, rows] =>
+    match allSome (tys.toList.map tyOfChar) with
+    | none => none
+    | some tys =>
+      if tys.isEmpty then none else
+      let rowWords := if rows.isEmpty then [] else rows.splitOn "|"
+      match allSome (rowWords.map (fun r => allSome ((r.splitOn ",").map valOfWord))) with
+      | none => none
+      | some rs => if rs.all (fun r => r.length == tys.length) then some { tys := tys, rows := rs } else none
+  | _ => none
+
+def parseDb (w : String) : Option Db := allSome ((w.splitOn "/").map parseTable)
+
+/-- `p<k>` style words -/
+def numAfter (pre : String) (w : String) : Option Nat :=
+  if w.startsWith pre then (w.drop pre.length).toString.toNat? else none
+
+abbrev P (α : Type) := List String → Option (α × List String)
+
+def cmpOfWord : String → Option CmpOp
+  | "eq" => some .eq | "ne" => some .ne | "lt" => some .lt | "le" => some .le | "gt" => some .gt | "ge" => some .ge
+  | _ => none
+
+def arithOfWord : String → Option ArithOp
+  | "add" => some .add | "sub" => some .sub | "mul" => some .mul | "div" => some .div | "mod" => some .mod
+  | _ => none
+
+mutual
+def pExpr : Nat → P Expr
+  | 0, _ => none
+  | _, [] => none
+  | fuel + 1, w :: ws =>
+    match valOfWord w with
+    | some v => some (.lit v, ws)
+    | none =>
+    match numAfter "c" w with
+    | some k => some (.col k, ws)
+    | none =>
+    match cmpOfWord w, arithOfWord w with
+    | some op, _ => (pExpr fuel ws).bind fun (a, r) => (pExpr fuel r).map fun (b, r) => (.cmp op a b, r)
+    | _, some op => (pExpr fuel ws).bind fun (a, r) => (pExpr fuel r).map fun (b, r) => (.arith op a b, r)
+    | none, none =>
+    match w with
+    | "not" => (pExpr fuel ws).map fun (a, r) => (.not a, r)
+    | "neg" => (pExpr fuel ws).map fun (a, r) => (.neg a, r)
+    | "pos" => (pExpr fuel ws).map fun (a, r) => (.pos a, r)
+    | "and" => (pExpr fuel ws).bind fun (a, r) => (pExpr fuel r).map fun (b, r) => (.and a b, r)
+    | "or" => (pExpr fuel ws).bind fun (a, r) => (pExpr fuel r).map fun (b, r) => (.or a b, r)
+    | "like" => (pExpr fuel ws).bind fun (a, r) => (pExpr fuel r).map fun (b, r) => (.like false a b, r)
+    | "nlike" => (pExpr fuel ws).bind fun (a, r) => (pExpr fuel r).map fun (b, r) => (.like true a b, r)
+    | "isnull" => (pExpr fuel ws).map fun (a, r) => (.isNull false a, r)
+    | "notnull" => (pExpr fuel ws).map fun (a, r) => (.isNull true a, r)
+    | "btw" => (pExpr fuel ws).bind fun (a, r) => (pExpr fuel r).bind fun (b, r) =>
+        (pExpr fuel r).map fun (c, r) => (.between false a b c, r)
+    | "nbtw" => (pExpr fuel ws).bind fun (a, r) => (pExpr fuel r).bind fun (b, r) =>
+        (pExpr fuel r).map fun (c, r) => (.between true a b c, r)
+    | _ =>
+      match numAfter "nin" w, numAfter "in" w with
+      | some k, _ => (pExpr fuel ws).bind fun (a, r) => (pExprs fuel k r).map fun (xs, r) => (.inList true a xs, r)
+      | none, some k => (pExpr fuel ws).bind fun (a, r) => (pExprs fuel k r).map fun (xs, r) => (.inList false a xs, r)
+      | none, none => none
+
+def pExprs : Nat → Nat → P (List Expr)
+  | 0, _, _ => none
+  | _, 0, ws => some ([], ws)
+  | fuel + 1, k + 1, ws =>
+    (pExpr fuel ws).bind fun (e, r) => (pExprs fuel k r).map fun (es, r) => (e :: es, r)
+end
+
+def joinKindOfWord : String → Option JoinKind
+  | "inner" => some .inner | "left" => some .left | "right" => some .right | "full" => some .full
+  | "cross" => some .cross | _ => none
+
+def pOn (fuel : Nat) : P (Option Expr)
+  | "-" :: ws => some (none, ws)
+  | "on" :: ws => (pExpr fuel ws).map fun (e, r) => (some e, r)
+  | _ => none
+
+def pFrom : Nat → P From
+  | 0, _ => none
+  | _, [] => none
+  | fuel + 1, w :: ws =>
+    if w == "j" then
+      match ws with
+      | k :: ws =>
+        match joinKindOfWord k with
+        | none => none
+        | some k => (pFrom fuel ws).bind fun (l, r) => (pFrom fuel r).bind fun (rr, r) =>
+            (pOn (fuel + 1) r).map fun (on, r) => (.join k l rr on, r)
+      | [] => none
+    else (numAfter "t" w).map fun t => (.table t, ws)
+
+def pWhere (fuel : Nat) : P (Option Expr)
+  | "-" :: ws => some (none, ws)
+  | "w" :: ws => (pExpr fuel ws).map fun (e, r) => (some e, r)
+  | _ => none
+
+def pAgg (fuel : Nat) : P Agg
+  | "cnt*" :: ws => some ({ fn := .countStar, arg := .lit .null }, ws)
+  | "cnt" :: ws => (pExpr fuel ws).map fun (e, r) => ({ fn := .count, arg := e }, r)
+  | "sum" :: ws => (pExpr fuel ws).map fun (e, r) => ({ fn := .sum, arg := e }, r)
+  | "avg" :: ws => (pExpr fuel ws).map fun (e, r) => ({ fn := .avg, arg := e }, r)
+  | "min" :: ws => (pExpr fuel ws).map fun (e, r) => ({ fn := .min, arg := e }, r)
+  | "max" :: ws => (pExpr fuel ws).map fun (e, r) => ({ fn := .max, arg := e }, r)
+  | _ => none
+
+def pMany {α} (p : P α) : Nat → P (List α)
+  | 0, ws => some ([], ws)
+  | k + 1, ws => (p ws).bind fun (a, r) => (pMany p k r).map fun (as, r) => (a :: as, r)
+
+def pOrd : P (Nat × Bool)
+  | w :: ws =>
+    match numAfter "a" w, numAfter "d" w with
+    | some k, _ => some ((k, true), ws)
+    | none, some k => some ((k, false), ws)
+    | none, none => none
+  | [] => none
+
+def pOptNat (pre : String) : P (Option Nat)
+  | w :: ws =>
+    if w == pre ++ "-" then some (none, ws) else (numAfter pre w).map fun n => (some n, ws)
+  | [] => none
+
+def pItems (fuel : Nat) : P (Option (List Expr))
+  | "star" :: r => some (none, r)
+  | p :: r => (numAfter "p" p).bind fun np => (pExprs fuel np r).map fun (es, r) => (some es, r)
+  | [] => none
+
+def pSelect (fuel : Nat) : P Select
+  | d :: ws =>
+    let distinct? : Option Bool := if d == "all" then some false else if d == "distinct" then some true else none
+    match distinct? with
+    | none => none
+    | some distinct =>
+    (pFrom fuel ws).bind fun (f, r) =>
+    (pWhere fuel r).bind fun (w, r) =>
+    match r with
+    | g :: r =>
+      (numAfter "g" g).bind fun ng =>
+      (pExprs fuel ng r).bind fun (keys, r) =>
+      match r with
+      | a :: r =>
+        (numAfter "a" a).bind fun na =>
+        (pMany (pAgg fuel) na r).bind fun (aggs, r) =>
+        (pItems fuel r).bind fun (items, r) =>
+        match r with
+        | o :: r =>
+          (numAfter "o" o).bind fun no =>
+          (pMany pOrd no r).bind fun (ord, r) =>
+          (pOptNat "lim" r).bind fun (lim, r) =>
+          (pOptNat "off" r).map fun (off, r) =>
+            ({ distinct := distinct, from_ := f, where_ := w, groupBy := keys, aggs := aggs, items := items,
+               orderBy := ord, limit := lim, offset := off }, r)
+        | [] => none
+      | [] => none
+    | [] => none
+  | [] => none
+
+def pSet (fuel : Nat) : P (Nat × Expr)
+  | c :: ws => (numAfter "c" c).bind fun k => (pExpr fuel ws).map fun (e, r) => ((k, e), r)
+  | [] => none
+
+def chunks {α} (n : Nat) : Nat → List α → List (List α)
+  | 0, _ => []
+  | k + 1, xs => xs.take n :: chunks n k (xs.drop n)
+
+def pStmt (db : Db) (ws : List String) : Option Stmt :=
+  let fuel := ws.length + 1
+  match ws with
+  | "sel" :: r => match pSelect fuel r with
+    | some (q, []) => some (.select q)
+    | _ => none
+  | "ins" :: t :: n :: r =>
+    match numAfter "t" t, numAfter "r" n with
+    | some t, some n =>
+      let ncols := (db.getD t default).tys.length
+      match pExprs fuel (n * ncols) r with
+      | some (es, []) => some (.insert t (chunks ncols n es))
+      | _ => none
+    | _, _ => none
+  | "upd" :: t :: s :: r =>
+    match numAfter "t" t, numAfter "s" s with
+    | some t, some m =>
+      match pMany (pSet fuel) m r with
+      | some (sets, r) => match pWhere fuel r with
+        | some (w, []) => some (.update t sets w)
+        | _ => none
+      | none => none
+    | _, _ => none
+  | "del" :: t :: r =>
+    match numAfter "t" t with
+    | some t => match pWhere fuel r with
+      | some (w, []) => some (.delete t w)
+      | _ => none
+    | none => none
+  | _ => none
+
+/-! ### printing -/
+
+def natOfBits (f : Float) : Nat := f.toBits.toNat
+
+def showVal : Value → String
+  | .null => "n"
+  | .int i => s!"i{i}"
+  | .bool b => if b then "b1" else "b0"
+  | .text s => "t" ++ hexOrDash (s.map UInt8.ofNat)
+  | .rat n d =>
+    if d != 0 && n % (d : Int) == 0 then s!"i{n / (d : Int)}"
+    else s!"f{natOfBits (Float.ofInt n / Float.ofNat d)}"
+
+def showRow (r : Row) : String := joinWith "," (r.map showVal)
+
+def insertStr (x : String) : List String → List String
+  | [] => [x]
+  | y :: ys => if x ≤ y then x :: y :: ys else y :: insertStr x ys
+
+def sortStrs (xs : List String) : List String := (xs.toArray.qsort (· < ·)).toList
+
+def showRows (canonical : Bool) (rs : List Row) : String :=
+  let ss := rs.map showRow
+  joinWith "|" (if canonical then sortStrs ss else ss)
+
+def showOutcome (s : Stmt) : Outcome → String
+  | .error e => "E" ++ e.name
+  | .affected n => s!"A{n}"
+  | .rows rs =>
+    match s with
+    | .select q =>
+      if q.limit.isSome || q.offset.isSome then "Rlist:" ++ showRows false rs
+      else if !q.orderBy.isEmpty then "Rord:" ++ showRows true rs
+      else "Rset:" ++ showRows true rs
+    | _ => "Rset:" ++ showRows true rs
+
+/-- split the words of a line at the `;` words -/
+def splitStmts : List String → List (List String)
+  | [] => [[]]
+  | w :: ws =>
+    match splitStmts ws with
+    | cur :: rest => if w == ";" then [] :: cur :: rest else (w :: cur) :: rest
+    | [] => [[w]]
+
+def parseDefects (flags : List String) : Defects :=
+  { negatedIsOr := flags.contains "negatedIsOr"
+    notLikeFalse := flags.contains "notLikeFalse"
+    betweenTwoValued := flags.contains "betweenTwoValued"
+    inTwoValued := flags.contains "inTwoValued"
+    countColCountsNull := flags.contains "countColCountsNull"
+    divZeroPanics := flags.contains "divZeroPanics"
+    overflowPanics := flags.contains "overflowPanics"
+    notBindsLooser := flags.contains "notBindsLooser"
+    mergeJoinNullKey := flags.contains "mergeJoinNullKey"
+    mergeJoinDropsRight := flags.contains "mergeJoinDropsRight"
+    equiKeysUnoriented := flags.contains "equiKeysUnoriented"
+    nljEmptyLeftNoPad := flags.contains "nljEmptyLeftNoPad" }
+
+def isDml : Stmt → Bool
+  | .select _ => false
+  | _ => true
+
+/-- What a *failed* INSERT/UPDATE/DELETE leaves behind is property C03 (statement atomicity), not C05:
+    the statements after a failed DML statement are not compared (`-`). -/
+def cutAfterFailedDml : List (Bool × String) → List String
+  | [] => []
+  | (dml, o) :: rest =>
+    if dml && o.startsWith "E" then o :: rest.map (fun _ => "-") else o :: cutAfterFailedDml rest
+
+/-- the engine places NULL as the largest value (ASC: last, DESC: first) -/
+def nullsFirstOfEngine : Bool := false
+
+def step (D : Defects) (line : String) (shipped : Option Parser.Table := none) : String :=
+  match words line with
+  | "sql" :: dbw :: ";" :: rest =>
+    match parseDb dbw with
+    | none => "bad-op"
+    | some db =>
+      let stmtWords := splitStmts rest
+      -- statements are parsed against the table widths of the initial database (DML never changes them)
+      match allSome (stmtWords.map (pStmt db)) with
+      | none => "bad-op"
+      | some stmts =>
+        let stmts := match shipped with
+          | some T => stmts.map (reparseStmt T)
+          | none => stmts
+        let outs := execAll D nullsFirstOfEngine db stmts
+        joinWith " ; " (cutAfterFailedDml ((stmts.zip outs).map (fun (s, o) => (isDml s, showOutcome s o))))
+  | _ => "bad-op"
+
+end AxVerif.Sql
+
 namespace AxVerif.Drivers
-
-def sql (_flags : List String) (_line : String) : String := "unimplemented"
-
+def sql (flags : List String) (line : String) : String :=
+  AxVerif.Sql.step (AxVerif.Sql.parseDefects flags) line (AxVerif.Sql.shippedParserTable flags)
 end AxVerif.Drivers
